@@ -342,7 +342,7 @@ def emit_fama(m, nm, ch):
         t = c['ast']
         tag = 'requires' if t['op'] == 'REQUIRES' else 'excludes'
         a, b = nm.conc(t['l']['v']), nm.conc(t['r']['v'])
-        attrs = [('name', c['name']), ('feature', a), (tag, b)]
+        attrs = [('name', nm.conc_ctc(c['name'])), ('feature', a), (tag, b)]
         if ch['order']:
             attrs.reverse()
         out.append('<%s%s/>' % (tag, ''.join(' %s=%s' % (k, quoteattr(v)) for k, v in attrs)))
@@ -477,7 +477,7 @@ def emit_glencoe(m, nm, ch):
         ops = [term(t['l'])] + ([term(t['r'])] if t['r']['op'] != 'NIL' else [])
         return {'type': GL_OPS[t['op']], 'operands': ops}
     doc = {'id': 'FM_ref', 'name': 'FM_ref', 'features': feats, 'tree': tree(m['root']),
-           'constraints': {c['name']: term(c['ast']) for c in m['ctcs']}}
+           'constraints': {nm.conc_ctc(c['name']): term(c['ast']) for c in m['ctcs']}}
     if ch['extras']:
         doc['meta'] = {'tool': 'ref'}
     if ch['order']:
